@@ -336,9 +336,10 @@ def add_worm_gear_mating(
                 friction_coefficient/master.helix_angle.tan()) / \
             (master.pressure_angle.cos() +
                 friction_coefficient*master.helix_angle.tan())
-    self_locking = \
-        friction_coefficient > worm_gear.pressure_angle.cos() * \
+    self_locking = bool(
+        friction_coefficient > worm_gear.pressure_angle.cos() *
         worm_gear.helix_angle.tan()
+    )
 
     if efficiency > 1 or efficiency < 0:
         raise ValueError(
